@@ -198,6 +198,29 @@ macro_rules! iter_fold {
     };
 }
 
+/// ... and over longer iterators a, b, a, b, ... (the length is an input too: a blocked or unrolled fold has its
+/// boundaries at powers of two, and overflows at a different item than the documented left fold)
+macro_rules! iter_fold_n {
+    ($v:ident, $T:ident, $E:ty, $N:expr, $($L:literal),*) => {$(
+        $v.push(IntOp { name: format!("<{} as Sum>::sum over {} items a, b, a, ...", stringify!($T), $L), ty: TyId::$T, rhs_n: $N, lhs_scalar: false,
+            rhs_elem: <$E as Scalar>::KIND, is_shift: false,
+            fold: Some(|a, b| (0..a.len()).map(|i| { let mut acc: $E = 0; for k in 0..$L { acc = acc + <$E>::from_bits64(if k % 2 == 0 { a[i] } else { b[i] }); } acc.to_bits64() }).collect()),
+            vec: |a, b| { let it = [mk::<$T>(a), mk::<$T>(b)]; bits(&(0..$L).map(|k| it[k % 2]).sum::<$T>()) }, prim: |a, _| a });
+        $v.push(IntOp { name: format!("<{} as Sum<&{}>>::sum over {} items a, b, a, ...", stringify!($T), stringify!($T), $L), ty: TyId::$T, rhs_n: $N, lhs_scalar: false,
+            rhs_elem: <$E as Scalar>::KIND, is_shift: false,
+            fold: Some(|a, b| (0..a.len()).map(|i| { let mut acc: $E = 0; for k in 0..$L { acc = acc + <$E>::from_bits64(if k % 2 == 0 { a[i] } else { b[i] }); } acc.to_bits64() }).collect()),
+            vec: |a, b| { let it = [mk::<$T>(a), mk::<$T>(b)]; bits(&(0..$L).map(|k| &it[k % 2]).sum::<$T>()) }, prim: |a, _| a });
+        $v.push(IntOp { name: format!("<{} as Product>::product over {} items a, b, a, ...", stringify!($T), $L), ty: TyId::$T, rhs_n: $N, lhs_scalar: false,
+            rhs_elem: <$E as Scalar>::KIND, is_shift: false,
+            fold: Some(|a, b| (0..a.len()).map(|i| { let mut acc: $E = 1; for k in 0..$L { acc = acc * <$E>::from_bits64(if k % 2 == 0 { a[i] } else { b[i] }); } acc.to_bits64() }).collect()),
+            vec: |a, b| { let it = [mk::<$T>(a), mk::<$T>(b)]; bits(&(0..$L).map(|k| it[k % 2]).product::<$T>()) }, prim: |a, _| a });
+        $v.push(IntOp { name: format!("<{} as Product<&{}>>::product over {} items a, b, a, ...", stringify!($T), stringify!($T), $L), ty: TyId::$T, rhs_n: $N, lhs_scalar: false,
+            rhs_elem: <$E as Scalar>::KIND, is_shift: false,
+            fold: Some(|a, b| (0..a.len()).map(|i| { let mut acc: $E = 1; for k in 0..$L { acc = acc * <$E>::from_bits64(if k % 2 == 0 { a[i] } else { b[i] }); } acc.to_bits64() }).collect()),
+            vec: |a, b| { let it = [mk::<$T>(a), mk::<$T>(b)]; bits(&(0..$L).map(|k| &it[k % 2]).product::<$T>()) }, prim: |a, _| a });
+    )*};
+}
+
 macro_rules! int_type {
     ($v:ident, $T:ident, $E:ty, $N:expr, signed=$s:tt) => {
         binop!($v, $T, $E, $N, Add, add, add_assign_shim, +);
@@ -218,6 +241,7 @@ macro_rules! int_type {
             prim: |a, _| (!<$E>::from_bits64(a)).to_bits64() });
         lane_method!($v, $T, $E, $N, min, max);
         iter_fold!($v, $T, $E, $N);
+        iter_fold_n!($v, $T, $E, $N, 3, 5, 17, 129, 1025, 32769);
         int_type!(@signed $v, $T, $E, $N, $s);
     };
     (@signed $v:ident, $T:ident, $E:ty, $N:expr, y) => {
